@@ -295,3 +295,95 @@ theorem getE_ok {β : Type} (l : List β) (i : Nat) (h : i < l.length) : getE l 
   simp [getE, List.getElem?_eq_getElem h]
 
 end Biom.C05
+
+namespace Biom.C05
+
+/-! ### helpers for the accessor clauses -/
+
+theorem dedup_of_nodup (l : List Id) (h : l.Nodup) : dedup l = l := by
+  induction l with
+  | nil => rfl
+  | cons a t ih =>
+    have hc := List.nodup_cons.mp h
+    unfold dedup
+    rw [if_neg hc.1, ih hc.2]
+
+theorem hasDup_false_of_nodup (l : List Id) (h : l.Nodup) : hasDup l = false := by
+  unfold hasDup; rw [dedup_of_nodup l h]; simp
+
+theorem map_eq_of_getElem {β γ : Type} (l : List β) (r : List γ) (f : β → γ) (hl : l.length = r.length)
+    (h : ∀ k (hk : k < l.length), f l[k] = r[k]'(hl ▸ hk)) : l.map f = r := by
+  apply List.ext_getElem
+  · simp [hl]
+  · intro k h1 h2
+    simp only [List.getElem_map]
+    exact h k (by simpa using h1)
+
+theorem indexOf?_getElem (l : List Id) (h : l.Nodup) (k : Nat) (hk : k < l.length) : indexOf? l l[k] = some k := by
+  have : l.idxOf l[k] = k := List.Nodup.idxOf_getElem h k hk
+  simp [indexOf?, this, hk]
+
+theorem map_indexOf?_self (l : List Id) (h : l.Nodup) : l.map (indexOf? l) = (List.range l.length).map some := by
+  apply map_eq_of_getElem l _ _ (by simp)
+  intro k hk
+  simp [indexOf?_getElem l h k hk]
+
+theorem lookupBy_getElem {β : Type} : ∀ (ids : List Id) (xs : List β), ids.Nodup → ids.length = xs.length →
+    ∀ k (hk : k < ids.length) (hk' : k < xs.length), lookupBy ids xs ids[k] = some xs[k]
+  | [], _, _, _, k, hk, _ => by simp at hk
+  | i :: is, [], _, hl, _, _, _ => by simp at hl
+  | i :: is, x :: xs, hnd, hl, k, hk, hk' => by
+    have hc := List.nodup_cons.mp hnd
+    cases k with
+    | zero => simp [lookupBy]
+    | succ k =>
+      have hne : i ≠ is[k]'(by simpa using hk) := fun e => hc.1 (e ▸ List.getElem_mem _)
+      simp only [List.getElem_cons_succ, lookupBy, if_neg hne]
+      exact lookupBy_getElem is xs hc.2 (by simpa using hl) k (by simpa using hk) (by simpa using hk')
+
+theorem all_contains_self {β : Type} [BEq β] [LawfulBEq β] (l : List β) : l.all (l.contains ·) = true := by
+  rw [List.all_eq_true]
+  intro x hx
+  exact List.contains_iff_mem.mpr hx
+
+theorem approxEq_self (a s : Rat) : approxEq a a s = true := by
+  unfold approxEq; simp
+
+end Biom.C05
+
+namespace Biom.C05
+
+theorem all_zip_map_map {ι β γ : Type} (l : List ι) (f : ι → β) (g : ι → γ) (P : β → γ → Bool)
+    (h : ∀ k ∈ l, P (f k) (g k) = true) : ((l.map f).zip (l.map g)).all (fun p => P p.1 p.2) = true := by
+  induction l with
+  | nil => rfl
+  | cons a t ih =>
+    simp only [List.map_cons, List.zip_cons_cons, List.all_cons, Bool.and_eq_true]
+    exact ⟨h a (List.mem_cons_self ..), ih (fun k hk => h k (List.mem_cons_of_mem _ hk))⟩
+
+theorem natCast_ne_zero (n : Nat) (h : n ≠ 0) : ((n : Nat) : Rat) ≠ 0 := by
+  intro h0
+  have : ((n : Nat) : Rat) = ((0 : Nat) : Rat) := by simpa using h0
+  exact h (Rat.natCast_inj.mp this)
+
+end Biom.C05
+
+namespace Biom.C05
+
+theorem flatMap_congr' {β γ : Type} (l : List β) (f g : β → List γ) (h : ∀ a ∈ l, f a = g a) :
+    l.flatMap f = l.flatMap g := by
+  induction l with
+  | nil => rfl
+  | cons a t ih =>
+    simp only [List.flatMap_cons]
+    rw [h a (List.mem_cons_self ..), ih (fun b hb => h b (List.mem_cons_of_mem _ hb))]
+
+theorem filterMap_congr' {β γ : Type} (l : List β) (f g : β → Option γ) (h : ∀ a ∈ l, f a = g a) :
+    l.filterMap f = l.filterMap g := by
+  induction l with
+  | nil => rfl
+  | cons a t ih =>
+    simp only [List.filterMap_cons]
+    rw [h a (List.mem_cons_self ..), ih (fun b hb => h b (List.mem_cons_of_mem _ hb))]
+
+end Biom.C05
